@@ -38,8 +38,10 @@ func rejectingBlocks(fn *ssa.Function) map[*ssa.BasicBlock]bool {
 				if ei < len(t.Results) && isErrorValue(t.Results[ei]) {
 					rej[b], changed = true, true
 				} else if ei < len(t.Results) {
-					// err returned from a callee under err != nil
+					// err returned from a callee under err != nil (or a merged err of an expanded helper, likewise)
 					if ex, ok := t.Results[ei].(*ssa.Extract); ok && knownNonNil(b, ex) {
+						rej[b], changed = true, true
+					} else if ph, ok := t.Results[ei].(*ssa.Phi); ok && knownNonNil(b, ph) {
 						rej[b], changed = true, true
 					}
 				}
@@ -60,6 +62,27 @@ func rejectingBlocks(fn *ssa.Function) map[*ssa.BasicBlock]bool {
 		}
 	}
 	return rej
+}
+
+// rejectingVia: the edge p→b can only end in an error return — b is rejecting, or b is a merge block whose branch is
+// decided by the value this edge feeds into its φ (threadedSucc) and the selected edge is rejecting in turn.  With a
+// helper expanded in place, `res, err = nil, ErrX; break L` reaches the caller's `if err != nil { return nil, err }`
+// through such a merge.
+func rejectingVia(rej map[*ssa.BasicBlock]bool, p, b *ssa.BasicBlock, depth int) bool {
+	if rej[b] {
+		return true
+	}
+	if depth > 6 {
+		return false
+	}
+	// pass through straight-line blocks
+	if len(b.Succs) == 1 {
+		return rejectingVia(rej, b, b.Succs[0], depth+1)
+	}
+	if only := threadedSucc(b, p); only != nil {
+		return rejectingVia(rej, b, only, depth+1)
+	}
+	return false
 }
 
 // condLeaves reduces a condition to what it looks at.
@@ -188,7 +211,11 @@ func rejectionVocabulary(p *Program, r *Report, rule string, fn *ssa.Function, a
 		if !ok || rej[b] {
 			continue
 		}
-		if !rej[b.Succs[0]] && !rej[b.Succs[1]] {
+		if !rejectingVia(rej, b, b.Succs[0], 0) && !rejectingVia(rej, b, b.Succs[1], 0) {
+			continue
+		}
+		// the merged `if err != nil` behind an expanded helper is not a test of its own: every edge into it is decided
+		if ph := mergedErrTest(b); ph {
 			continue
 		}
 		n++
@@ -268,7 +295,7 @@ func refusesOnlyFor(p *Program, r *Report, rule string, fn *ssa.Function, allowe
 	n := 0
 	for _, b := range fn.Blocks {
 		iff, ok := lastInstr(b).(*ssa.If)
-		if !ok || rej[b] || (!rej[b.Succs[0]] && !rej[b.Succs[1]]) {
+		if !ok || rej[b] || (!rejectingVia(rej, b, b.Succs[0], 0) && !rejectingVia(rej, b, b.Succs[1], 0)) || mergedErrTest(b) {
 			continue
 		}
 		n++
@@ -308,4 +335,18 @@ func refusesOnlyFor(p *Program, r *Report, rule string, fn *ssa.Function, allowe
 			fmt.Sprintf("other arguments the callee is given: {%s}", strings.Join(foreign, ", ")))
 	}
 	return n
+}
+
+// mergedErrTest: b branches on a φ of b all of whose operands are constants or definite errors — the test is decided
+// on every incoming edge (threadedSucc), so it adds no reason of its own to refuse.
+func mergedErrTest(b *ssa.BasicBlock) bool {
+	if len(b.Preds) < 2 {
+		return false
+	}
+	for _, p := range b.Preds {
+		if threadedSucc(b, p) == nil {
+			return false
+		}
+	}
+	return true
 }
